@@ -13,7 +13,8 @@
 (*   journal   AccountsDB.entries, the undo records exactly as SaveAccount *)
 (*             / RemoveAccount create them (journalEntryAccount,           *)
 (*             journalEntryAccountCreation, journalEntryDataTrieUpdates,   *)
-(*             journalEntryCode, journalEntryDataTrieRemove)               *)
+(*             journalEntryCode, journalEntryDataTrieRemove, and - in the  *)
+(*             intended design - journalEntryDataTrieHolder)               *)
 (*   committed the state at the last Commit (lastRootHash)                 *)
 (*   persisted data tries (address, content) whose nodes are in storage    *)
 (*                                                                         *)
@@ -87,15 +88,16 @@ UndoEntry(S, e) ==
             LET c == [k \in SKey |-> IF k \in DOMAIN e.old THEN e.old[k] ELSE S.tries[e.tid][k]]
             IN  [S EXCEPT !.tries[e.tid] = c,
                           !.main[e.a] = [e.rec EXCEPT !.root = [has |-> TRUE, m |-> c]]]
-      [] e.t = "trieRemove" ->                                            \* journalEntryDataTrieRemove
-            IF "stale-data-trie" \in KnownDefects THEN S
-            ELSE [S EXCEPT !.holder[e.a] = e.tid]
+      [] e.t = "trieRemove" -> S                                          \* journalEntryDataTrieRemove (pruning bookkeeping only)
+      [] e.t = "holder" -> [S EXCEPT !.holder[e.a] = e.tid]               \* the removed account's trie goes back in the holder
       [] OTHER -> S
 
 RECURSIVE UndoDown(_, _, _)
 UndoDown(S, i, n) == IF i <= n THEN S ELSE UndoDown(UndoEntry(S, journal[i]), i - 1, n)
 
-Rec(a, in, out) == [a |-> a, in |-> in, out |-> out, st |-> Abs']
+\* st: the state the specification reaches; exp: the state the property demands (differs only under KnownDefects)
+Rec(a, in, out) == [a |-> a, in |-> in, out |-> out, st |-> Abs',
+                    exp |-> IF Abs' = expect' THEN [same |-> TRUE] ELSE [same |-> FALSE, st |-> expect']]
 
 Snap(n, s) == [i \in (DOMAIN stateAt) \cup {n} |-> IF i = n THEN s ELSE stateAt[i]]
 
@@ -167,8 +169,11 @@ Remove(a) ==
         eCode == [t |-> "code", oldH |-> oldH, oldRefs |-> oldRefs, newH |-> ""]
         ok   == RootPersisted(a, old.root)        \* removeDataTrie recreates the data trie from storage
         tid  == IF holder[a] # 0 THEN holder[a] ELSE Len(tries) + 1
-        eRem == [t |-> "trieRemove", a |-> a, tid |-> tid]
+        eRem == [t |-> "trieRemove", a |-> a]
+        eHold == [t |-> "holder", a |-> a, tid |-> tid]
         partial == "partial-remove" \in KnownDefects
+        remEntries == IF ~old.root.has THEN <<>>
+                      ELSE IF "stale-data-trie" \in KnownDefects THEN <<eRem>> ELSE <<eRem, eHold>>
     IN
     IF ~old.ex
     THEN /\ UNCHANGED <<main, codeTbl, tries, holder, journal, committed, persisted, stateAt, expect>>
@@ -181,7 +186,8 @@ Remove(a) ==
          /\ stateAt' = Snap(Len(journal'), Abs')
          /\ expect' = Abs'
          /\ hist' = Log(hist, Rec("Remove", [a |-> a], [err |-> TRUE, jl |-> Len(journal')]))
-    ELSE /\ journal' = journal \o <<eAcc, eCode>> \o (IF old.root.has THEN <<eRem>> ELSE <<>>)
+    ELSE /\ journal' = IF partial THEN journal \o <<eAcc, eCode>> \o remEntries
+                                   ELSE journal \o <<eAcc>> \o remEntries \o <<eCode>>
          /\ codeTbl' = DecRef(codeTbl, oldH)
          /\ main' = [main EXCEPT ![a] = Absent]
          /\ tries' = IF old.root.has /\ holder[a] = 0 THEN Append(tries, old.root.m) ELSE tries
@@ -221,12 +227,13 @@ Commit ==
     /\ expect' = Abs          \* a commit changes nothing a client can read
     /\ hist' = Log(hist, Rec("Commit", [x |-> 0], [err |-> FALSE, jl |-> 0]))
 
-Next ==
+NextCore ==
     \/ \E a \in Addr, ch \in Changes : Save(a, ch)
     \/ \E a \in Addr : Remove(a)
     \/ \E n \in DOMAIN stateAt : Revert(n)
-    \/ RevertBad
     \/ Commit
+
+Next == NextCore \/ RevertBad
 
 Spec == Init /\ [][Next]_vars
 
